@@ -26,9 +26,10 @@ def pins(tier, seed):
     return sorted(set(T4_FLAGS) - set(free)), []
 
 
-def cfg_text(base, pin_true, pin_false):
+def cfg_text(base, pin_true, pin_false, ball=0):
     import re
     s = lambda xs: "{" + ", ".join('"%s"' % x for x in xs) + "}"
+    base = re.sub(r"BallK = .*", "BallK = %d" % ball, base)
     base = re.sub(r"PinTrue = .*", "PinTrue = " + s(pin_true), base)
     return re.sub(r"PinFalse = .*", "PinFalse = " + s(pin_false), base)
 
@@ -124,7 +125,7 @@ def run(tier, seed, replay=None):
             with open(os.path.join(SPEC_DIR, "TopoC07.cfg")) as fh:
                 base = fh.read()
             with open(os.path.join(wd, "TopoC07.cfg"), "w") as fh:
-                fh.write(cfg_text(base, pin_true, pin_false))
+                fh.write(cfg_text(base, pin_true, pin_false, ball=4 if tier == "quick" else 6))
             r = run_tlc("TopoC07", "TopoC07.cfg", workdir=wd, dump=True, timeout=3000)
         finally:
             pass
@@ -157,9 +158,9 @@ def run(tier, seed, replay=None):
         "states": states + st["states"], "transitions": trans + st["generated"],
         "traces_validated_against_impl": len(cases), "exhaustive": True,
         "evaluations": len(cases), "distinct_nontrivial": nontriv,
-        "rule": "every configuration TLC enumerates for template T4 with pins %s true is replayed (runpp, rundcpp, "
+        "rule": ("every configuration of template T4 that differs from the base point in at most %d of the 22 flags" % (4 if tier == "quick" else 6)) + " is replayed (runpp, rundcpp, "
                 "unsupplied_buses); non-trivial = converged, >=1 open switch/out-of-service branch, >=1 unsupplied "
-                "in-service bus and >=1 supplied bus" % pin_true,
+                "in-service bus and >=1 supplied bus",
         "model_states": states, "obs_cases_checked_by_tlc": st["states"],
         "converged_ac": sum(c["conv_ac"] for c in cases), "converged_dc": sum(c["conv_dc"] for c in cases),
         "samples": [cases[k] for k in range(0, len(cases), max(1, len(cases) // 3))][:3],
